@@ -16,9 +16,10 @@ def is_discarded_terminal(t):
 
 
 class _MakeTreeMatch:
-    def __init__(self, name, expansion):
+    def __init__(self, name, expansion, to_term=False):
         self.name = name
         self.expansion = expansion
+        self.to_term = to_term      # rule -> Tree(rule or alias): lets other rules refer to a node of this rule
 
     def __call__(self, args):
         t = Tree(self.name, args)
@@ -61,7 +62,7 @@ def make_recons_rule(origin, expansion, old_expansion):
 
 
 def make_recons_rule_to_term(origin, term):
-    return make_recons_rule(origin, [Terminal(term.name)], [term])
+    return Rule(origin, [Terminal(term.name)], alias=_MakeTreeMatch(origin.name, [term], to_term=True))
 
 
 def parse_rulename(s):
@@ -181,19 +182,26 @@ class TreeMatcher:
         else:
             rulename = tree.data
 
+        root = NonTerminal('$root_' + rulename)
+
         # TODO: ambiguity?
         try:
             parser = self._parser_cache[rulename]
         except KeyError:
-            rules = self.rules + _best_rules_from_group(self.rules_for_root[rulename])
+            # The node itself must come from one of the expansions of its rule. The rules that let other rules refer
+            # to a node of this rule (rule -> Tree(rule), rule -> Tree(alias)) would also match a node whose only child
+            # is a node of the same rule, and lose the tokens around that child. So the root gets a symbol of its own.
+            own = [r for r in self.rules if r.origin.name == rulename and not r.alias.to_term]
+            own += _best_rules_from_group(self.rules_for_root[rulename])
+            rules = self.rules + [Rule(root, r.expansion, alias=r.alias) for r in own]
 
             # TODO pass callbacks through dict, instead of alias?
             callbacks = {rule: rule.alias for rule in rules}
-            conf = ParserConf(rules, callbacks, [rulename]) # type: ignore[arg-type]
+            conf = ParserConf(rules, callbacks, [root.name]) # type: ignore[arg-type]
             parser = earley.Parser(self.parser.lexer_conf, conf, _match, resolve_ambiguity=True)
             self._parser_cache[rulename] = parser
 
         # find a full derivation
-        unreduced_tree: Tree = parser.parse(ChildrenLexer(tree.children), rulename)
+        unreduced_tree: Tree = parser.parse(ChildrenLexer(tree.children), root.name)
         assert unreduced_tree.data == rulename
         return unreduced_tree
